@@ -37,6 +37,9 @@ FUNCS = [
     ('in_date_from_unicode', 'spyne/protocol/_inbase.py', 'InProtocolBase', 'date_from_unicode'),
     ('in_datetime_from_unicode_iso', 'spyne/protocol/_inbase.py', 'InProtocolBase', 'datetime_from_unicode_iso'),
     ('in_duration_from_unicode', 'spyne/protocol/_inbase.py', 'InProtocolBase', 'duration_from_unicode'),
+    ('in__parse_datetime_iso_match', 'spyne/protocol/_inbase.py', None, '_parse_datetime_iso_match'),
+    ('in_uuid_from_unicode', 'spyne/protocol/_inbase.py', 'InProtocolBase', 'uuid_from_unicode'),
+    ('out_uuid_to_unicode', 'spyne/protocol/_outbase.py', 'OutProtocolBase', 'uuid_to_unicode'),
     ('in_byte_array_from_bytes', 'spyne/protocol/_inbase.py', 'InProtocolBase', 'byte_array_from_bytes'),
     ('bin_to_base64', 'spyne/model/binary.py', 'ByteArray', 'to_base64'),
     ('bin_from_base64', 'spyne/model/binary.py', 'ByteArray', 'from_base64'),
@@ -48,6 +51,9 @@ FUNCS = [
 # module-level values read from the imported module: (key, module, expression evaluated in it)
 VALUES = [
     # the date/time/duration/uuid patterns are translated semantically by regexes.py (Gen/Regexes.v, coq/C08/RegexTie.v)
+    ('fn_uuid_serialize_default', 'spyne.protocol._outbase', 'repr(_uuid_serialize[None])'),
+    ('fn_uuid_deserialize_default', 'spyne.protocol._inbase',
+     "__import__('inspect').getsource(_uuid_deserialize[None]).strip()"),
     ('fmt_DateTime_dt_format', 'spyne.model.primitive.datetime', 'repr(DateTime.Attributes.dt_format)'),
     ('fmt_DateTime_out_format', 'spyne.model.primitive.datetime', 'repr(DateTime.Attributes.out_format)'),
     ('fmt_Date_date_format', 'spyne.model.primitive.datetime', 'repr(Date.Attributes.date_format)'),
